@@ -9,7 +9,7 @@ PREC == <<"not", "and", "or">>
 Rules == <<[name |-> <<114,49>>, uid |-> <<>>], [name |-> <<114,50>>, uid |-> <<>>], [name |-> <<>>, uid |-> <<>>], [name |-> <<114,52>>, uid |-> <<>>],
           [name |-> <<114,53>>, uid |-> <<>>]>>      \* r5: a correlation rule over r1
 RuleTable(o) == [k \in 1..5 |-> [name |-> Rules[k].name, uid |-> o.uids[k]]]
-RenMap(B) == IF B.pipe = "rename"
+RenMap(B) == IF B.pipe \in {"rename", "rename_win"}
              THEN <<(<<(<<103,49>>), (<<71,49>>)>>), (<<(<<102,105,101,108,100,65>>), (<<70,65>>)>>),
                     (<<(<<102,105,101,108,100,88>>), (<<70,88>>)>>), (<<(<<102>>), (<<70>>)>>)>>
              ELSE <<>>
